@@ -28,6 +28,7 @@ func c10Histories(tier string) [][]string {
 		`!func e3(u, n, t){m := [u]; error("bad")}; e3("s", "n", "t")`,
 		`!func r9(n){r9(n+1)}; for i = 3 {r9(i)}`,
 		`!for j = 2 {for i = 2 {[1][i+5]}}`,
+		`!mi = macro(u){ff = func(n){self(n+1)}; ff(0); quote(1)}; mo = macro(u){quote(mi(unquote(u)))}; mo(1)`,
 		`!func e4(i){for 2 {e3b=func(u, n){error("inner")}; e3b(i, i)}}; e4("x")`,
 	}
 	var out [][]string
